@@ -125,6 +125,8 @@ def run(m: Model, r: Report, tier: str) -> None:
     r.rule("R3", "every variant of the replay query compiles against DB_SCHEMA, is ordered by id with LIMIT 1, first `id > last` then wrap-around", floor=8)
     r.rule("R4", "the cursor advances past every matched row; a NULL reply resets the state and yields silence; replies are parsed with the client's parser", floor=4)
     r.rule("R5", "address rows are never replaced (runs of the same target stay linked to their ECU)", floor=2)
+    r.rule("R6", "the recorded reply bytes depend on the reply object alone (stored whenever the ECU answered, also for illegal replies)", floor=1)
+    r.rule("R7", "the vecu command forwards both selectors (ECU name and properties) unaltered to the replay server, which binds both into the query", floor=3)
 
     cu = m.require_function(f"{ECU}.ECU.update_state")
     su = m.require_function(f"{SRV}.UDSServer.update_state")
@@ -223,6 +225,47 @@ def run(m: Model, r: Report, tier: str) -> None:
         r.check(re.match(r"\s*INSERT\s+OR\s+IGNORE\s+INTO\s+address", s, re.I) is not None, "R5", f"{q}#address-insert",
                 f"`{s}`: an existing address row must be kept (REPLACE deletes it: its ecu link is lost and earlier scan_run.address become NULL, "
                 "so selection by ECU name no longer finds the recording)", loc=q)
+
+    # ---------------------------------------------------------------- R6
+    from sa import sqlcheck as _sq
+    hins6 = m.require_function(f"{HANDLER}.DBHandler.insert_scan_result")
+    lits6 = [s_ for s_, _ in _sq.sql_literals(m, hins6) if "scan_result" in s_]
+    if len(lits6) != 1:
+        raise AnalysisError("scan_result INSERT not found")
+    cols6 = _sq.insert_columns(lits6[0])
+    tup6 = None
+    for n in ast.walk(hins6.node):
+        if isinstance(n, ast.Assign) and isinstance(n.value, ast.Tuple) and len(n.value.elts) >= 8 and "self.scan_run" in ast.unparse(n.value):
+            tup6 = n.value
+    if cols6 is None or tup6 is None or len(cols6) != len(tup6.elts) or "response_pdu" not in cols6:
+        raise AnalysisError("scan_result INSERT column list / parameter tuple not found")
+    for col in ("response_pdu", "response_data"):
+        e = tup6.elts[cols6.index(col)]
+        test_names = set()
+        if isinstance(e, ast.IfExp):
+            test_names = {x.id for x in ast.walk(e.test) if isinstance(x, ast.Name)}
+        resp_param = "response"
+        r.check(test_names <= {resp_param}, "R6", f"{hins6.qualname}#column:{col}",
+                f"column {col} is only written under a condition on {sorted(test_names - {resp_param})}: a reply that arrived but was refused by the client "
+                "(mismatch / malformed; no receive time is taken on that path) is stored as NULL, and the virtual ECU replays silence and resets its state", loc=hins6.loc)
+
+    # ---------------------------------------------------------------- R7
+    vs = m.require_function("gallia.commands.script.vecu.DbVirtualECU._server")
+    from sa import transport_rules as _tr
+    vcalls = [n for n in ast.walk(vs.node) if isinstance(n, ast.Call) and ast.unparse(n.func) == "DBUDSServer"]
+    if len(vcalls) != 1:
+        raise AnalysisError(f"{vs.qualname}: DBUDSServer(...) not found")
+    vb = _tr.bind_call(m, vs, vcalls[0])
+    if vb is None:
+        raise AnalysisError(f"{vs.qualname}: cannot bind the DBUDSServer arguments")
+    for par, want in (("db_path", "self.config.path"), ("ecu", "self.config.ecu"), ("properties", "self.config.properties")):
+        r.check(par in vb and ast.unparse(vb[par]) == want, "R7", f"{vs.qualname}#{par}",
+                f"DBUDSServer.{par} receives `{ast.unparse(vb[par]) if par in vb else '<default>'}`, not `{want}`: the replay is no longer restricted to the "
+                "selected recording (rows of other runs / property sets of the same ECU are mixed in)", loc=vs.loc)
+    dinit = m.require_function(f"{SRV}.DBUDSServer.__init__")
+    for par in ("ecu", "properties"):
+        r.check(any(isinstance(n, ast.Assign) and ast.unparse(n.targets[0]) == f"self.{par}" and ast.unparse(n.value) == par for n in ast.walk(dinit.node)),
+                "R7", f"{dinit.qualname}#{par}", f"self.{par} is not stored unaltered", loc=dinit.loc)
 
     r.assumptions += ["SQLite semantics (json_extract, INSERT OR IGNORE)"]
     r.not_decided += ["fidelity over all histories", "the server resets its state on a NULL reply while the client does not (documented mechanism of the property)"]
